@@ -301,7 +301,8 @@ Proof.
   apply wp_bind. apply wp_cbo_eq. simp_w.
   destruct (HTK (cb w) (fst p)) as (k' & s1 & Hk). rewrite Hk. cbn [fst snd].
   apply wp_bind. apply wp_emit.
-  apply wp_bind. apply wp_cbo_eq. simp_w.
+  (* the value clone never panics here: the unwinding wrapper is inert *)
+  apply wp_bind. apply wp_on_unwind_nopanic. apply wp_cbo_eq. simp_w.
   destruct (HTV s1 (snd p)) as (v' & s2 & Hv). rewrite Hv. cbn [fst snd].
   apply wp_ret. simp_w. split; [reflexivity|].
   intros x Hx. cbn [fst snd] in Hx. apply in_app_or in Hx. destruct Hx as [Hx|Hx].
